@@ -107,9 +107,9 @@ func newAgg(res *lib.Result) *agg {
 	a.ties[tieInclude] = res.Tie(tieInclude, "K2", tieIncludeRule)
 	a.ties[tieInclude].Exhaustive = true
 	a.mons[monShutdown] = res.Monitor(monShutdown,
-		"real pkg/resource + minibus under scenarios (0-8 subscribers, backpressure on/off, updates-only, PullID; consumers drain / stop after k / never receive; cancel before subscribe, at the n-th occurrence of every yield point, at random instants, at the end; 0-3 writers): after the cancel the consumer sees close within the bound; writers return once every non-receiving subscriber is cancelled; a write issued after a subscription ended returns; PullID closes after its item is removed - with backpressure after the first removal, without once the item is gone for good - also for a consumer that stayed away while the item was deleted / re-added / deleted behind it and came back without cancelling, and on collections built WithNoDuplicates / WithMessageEquivalence / WithEquivalence (items of two message types, the empty message included; read masks that select the payload or only a never-set field) (collections with an id interceptor lower/upper/trim: subscriber and writers spell the ids differently, the oracle keys everything by the intercepted id); trait-level subscriptions (Pull adapters of 10 trait models; the ModelServer gRPC Pull handlers of the same 10 traits on a stream whose Send starts failing at message 1, 2 or 3, or never): drain or stop receiving, writes, then cancel, also with an already-cancelled context; the goroutine census (runtime.Stack filtered to pkg/resource + internal/minibus + pkg/trait/* frames) returns to empty; no panic (recovered or process-killing). non-trivial = at least one subscriber; distinct = distinct check x subscription class x consumer/cancel mode")
+		"real pkg/resource + minibus under scenarios (0-8 subscribers, backpressure on/off, updates-only, PullID; consumers drain / stop after k / never receive; cancel before subscribe, at the n-th occurrence of every yield point, at random instants, at the end; 0-3 writers): after the cancel the consumer sees close within the bound; writers return once every non-receiving subscriber is cancelled; a write issued after a subscription ended returns; PullID closes after its item is removed - with backpressure after the first removal, without once the item is gone for good - also for a consumer that stayed away while the item was deleted / re-added / deleted behind it and came back without cancelling, and on collections built WithNoDuplicates / WithMessageEquivalence / WithEquivalence (items of two message types, the empty message included; read masks that select the payload or only a never-set field) and for subscriptions made WithInclude (a filter that includes everything / every item but one writer's / items by payload) (collections with an id interceptor lower/upper/trim: subscriber and writers spell the ids differently, the oracle keys everything by the intercepted id); trait-level subscriptions (Pull adapters of 10 trait models; the ModelServer gRPC Pull handlers of the same 10 traits on a stream whose Send starts failing at message 1, 2 or 3, or never; the Group Pull handlers of lightpb / onoffpb over three member devices on the same streams: after a failed Send the handler returns and everything it started is gone while the stream's context is still live): drain or stop receiving, writes, then cancel, also with an already-cancelled context; the goroutine census (runtime.Stack filtered to pkg/resource + internal/minibus + pkg/trait/* frames) returns to empty; no panic (recovered or process-killing). non-trivial = at least one subscriber; distinct = distinct check x subscription class x consumer/cancel mode")
 	a.mons[monDelivery] = res.Monitor(monDelivery,
-		"oracle: per-writer list of the writes that succeeded. Bus level (free-running, no yield points): rounds with 300-12000 already-cancelled listeners so that the next Send collects, 4-12 goroutines subscribing while 1-2 Sends run, then a sentinel Send: every listener whose Listen returned before the sentinel Send began must receive it exactly once. Resource level: a backpressure subscriber subscribed before the writers start, receiving throughout and not cancelled until they finished must receive each writer's events exactly once in that writer's order; every other subscriber must see strictly increasing sequence numbers per writer (no duplicate, no reordering); net effect: mergeChanges folded over every valid sequence of 1-5 change types of one item from both start states (a receiver's view of the item as one bool: the held change is applicable and leads to the item's state, nothing held = up to date, newest value carried); what a receiving, uncancelled Collection.Pull subscriber (with or without backpressure) has received adds up, once the writers are done, to the items that exist (a removal or re-creation of an item it was shown is never lost, whatever the lossy stage merged); a subscriber whose read mask hides the payload is judged by item and change type. non-trivial = at least one event expected/received")
+		"oracle: per-writer list of the writes that succeeded. Bus level (free-running, no yield points): rounds with 300-12000 already-cancelled listeners so that the next Send collects, 4-12 goroutines subscribing while 1-2 Sends run, then a sentinel Send: every listener whose Listen returned before the sentinel Send began must receive it exactly once. Resource level: a backpressure subscriber subscribed before the writers start, receiving throughout and not cancelled until they finished must receive each writer's events exactly once in that writer's order; every other subscriber must see strictly increasing sequence numbers per writer (no duplicate, no reordering); net effect: mergeChanges folded over every valid sequence of 1-5 change types of one item from both start states (a receiver's view of the item as one bool: the held change is applicable and leads to the item's state, nothing held = up to date, newest value carried); what a receiving, uncancelled Collection.Pull subscriber (with or without backpressure) has received adds up, once the writers are done, to the items that exist (a removal or re-creation of an item it was shown is never lost, whatever the lossy stage merged); a subscriber whose read mask hides the payload is judged by item and change type. WithInclude subscribers: under backpressure exactly the ADD / UPDATE / REMOVE sequence the filter makes of the writes, otherwise the view adds up to 'exists and included'; include table: every change told is applicable to the subscriber's view and the view ends at 'exists and included'. non-trivial = at least one event expected/received")
 	return a
 }
 
